@@ -352,6 +352,22 @@ pub fn run(tier: Tier) -> i32 {
             check: &check,
         },
     );
+    agg.assume("part two-listeners: both PTR records (type and subtype) of the instance always arrive together with one TTL, so every cause of removal is common to the two listeners; no responder (refresh queries stay unanswered); the daemon is additionally woken 1 and 2 ms after every expiry the model computes");
+    run_regressions::<crate::props::c05b::Case2>(&mut agg, "two-listeners", &crate::props::c05b::check);
+    run_part(
+        &mut agg,
+        &Part {
+            name: "two-listeners",
+            rule: "one instance announced with the PTR of its type and the PTR of a subtype, browsed under both at once: announcements (host TTL 1..200 s, other TTL 1..5000 s), goodbyes (all records / SRV only / both PTRs), silence, stop_browse of either search; oracle = the two listeners get ServiceRemoved in the same step or not at all, never early and never later than the step after the expiry the model computes; \
+                   non-trivial = both listeners were told of a removal in one step whose cause is not only the PTR's TTL",
+            cases: scale(tier.pick(8_000, 300_000)),
+            max_shrink_iters: 1000,
+            strategy: &crate::props::c05b::strategy,
+            check: &crate::props::c05b::check,
+        },
+    );
+    agg.require_class("two-listeners:both-listeners-removed-in-one-step", 500);
+    agg.require_class("two-listeners:removal-cause:srv-expired", 300);
     agg.require_class("departures:removal-cause:goodbye", 1000);
     agg.require_class("departures:removal-cause:srv-expired", 500);
     agg.require_class("departures:removal-cause:ptr-expired", 300);
@@ -361,6 +377,9 @@ pub fn run(tier: Tier) -> i32 {
 }
 
 pub fn replay_file(file: &std::path::Path) -> i32 {
+    if let Some(r) = replay_part::<crate::props::c05b::Case2>("C05", "two-listeners", file, 5, &crate::props::c05b::check) {
+        return r;
+    }
     replay_part::<Case>("C05", "departures", file, 5, &check).unwrap_or_else(|| {
         eprintln!("harness error: replay file does not belong to C05");
         2
